@@ -245,12 +245,12 @@ def mk_page(serial, seq, flags, pos, packets, complete=True):
 BAIT = True
 
 
-def foreign_stream(rng, serial):
+def foreign_stream(rng, serial, codec=None):
     """a small logical stream of an unknown codec: BOS page, a packet spanning two pages, EOS page"""
     pages = [mk_page(serial, 0, 2, 0, [b"fishead\x00" + bytes(rng.randrange(256) for _ in range(rng.choice([0, 5, 56])))])]
     seq = 1
-    if rng.random() < 0.7:
-        marker = (rng.choice([b"\x03vorbis-not", b"\x81theora-not"]) if BAIT else b"\x04vorbis-not") * 3
+    if BAIT or rng.random() < 0.7:
+        marker = ((b"\x81theora-not" if codec == "theora" else b"\x03vorbis-not") if BAIT else b"\x04vorbis-not") * 3
         pages.append(mk_page(serial, seq, 0, -1, [marker + bytes(255 * 2 - 33)], complete=False)); seq += 1
         pages.append(mk_page(serial, seq, 1, 77, [bytes(range(40)), b"", b"OpusTags?"])); seq += 1
     for _ in range(rng.choice([0, 1, 3])):
@@ -259,18 +259,20 @@ def foreign_stream(rng, serial):
     return pages
 
 
-def multiplex(rng, d):
+def multiplex(rng, d, codec=None):
     """the pages of d with the pages of a foreign stream slipped in between (both orders kept)"""
     pgs = [pg["raw"] for pg in W.ogg_pages(d)]
     serials = {pg["serial"] for pg in W.ogg_pages(d)}
     s = rng.choice([1, 7, 0xFFFFFFFF, 0x12345678])
     while s in serials:
         s += 1
-    fs = foreign_stream(rng, s)
+    fs = foreign_stream(rng, s, codec)
     out, i = [], 0
     # positions biased towards the header pages
     slots = sorted(rng.choice([1, 1, 2, 2, 3, 4, min(6, len(pgs)), len(pgs)]) for _ in fs)
     slots = [min(x, len(pgs)) for x in slots]
+    if BAIT and len(slots) >= 2 and rng.random() < 0.7:
+        slots[0] = slots[1] = min(1, len(pgs))      # the bait page right behind the identification header page
     for j, pg in enumerate(pgs):
         while i < len(fs) and slots[i] == j:
             out.append(fs[i]); i += 1
@@ -367,7 +369,7 @@ def extra_layouts(ctx, kind, st, data):
     # (1) a foreign logical stream multiplexed between the pages
     if rng.random() < 0.7:
         try:
-            f0, s = multiplex(rng, f)
+            f0, s = multiplex(rng, f, codec)
         except W.Bad:
             return
         run_layout(ctx, kind, f0, dict(data, runner="fam.ogg.layout", layout="multiplexed", foreign_serial=s), "multiplexed layout")
